@@ -837,3 +837,16 @@ def _norm_field(f, aliases):
         if f in names:
             return snake(role)
     return f
+
+
+_run_before_cache_rules = run
+
+
+def run(ctx):
+    _run_before_cache_rules(ctx)
+    # a control message names its atoms through the connection's cache (C14 rules re-run)
+    from .c14 import cache_threading
+    cache_threading(ctx, 'C08.9-cache-kept')
+    # the control message goes out in a frame of its own
+    from .c07 import send_buffer_own
+    send_buffer_own(ctx, 'C08.9-frame-assembled-from-empty')
